@@ -1119,6 +1119,62 @@ def check_C15(ctx):
                      "TLC (KeyOrderTrace.tla) judges each record. distinct_nontrivial = ordered pairs + separators")
 
 
+def check_C10(ctx):
+    build()
+    runs, steps, images = tiered(ctx, 24, 240), tiered(ctx, 600, 1500), tiered(ctx, 10, 16)
+    trace = os.path.join(ctx.work, "forest.ndjson")
+    selfdir = os.path.join(ctx.work, "forest-self")
+    p = sh([bin_path("forest"), "--seed", str(ctx.seed), "--runs", str(runs), "--steps", str(steps), "--images", str(images), "--out", trace,
+            "--selftest", selfdir], timeout=3600)
+    stats = json.loads(p.stdout.strip().splitlines()[-1])
+    log(f"forest: {stats['images']} images, {stats['trees']} trees, {stats['pages']} pages, depth up to {stats['max_depth']}, "
+        f"{stats['multimap_subtrees']} multimap subtrees, {stats['decode_errors']} undecodable")
+    ctx.notes["forest"] = stats
+    # the predicates reject damaged copies of a real image (one per clause of the property)
+    rejected = {}
+    for f in sorted(os.listdir(selfdir)):
+        ok, info = tlc_trace_generic(ctx, "ForestTrace", os.path.join(selfdir, f), timeout=600)
+        if ok:
+            raise ToolError(f"Forest.tla accepts the damaged image {f}: the predicates are vacuous")
+        rejected[f.replace(".ndjson", "")] = "rejected"
+    ctx.notes["damaged_images"] = rejected
+    if len(rejected) < 8:
+        raise ToolError(f"vacuity: the histories produced no image with branch pages to damage: {rejected}")
+    if stats["max_depth"] < 2 or stats["multimap_subtrees"] < 10:
+        raise ToolError(f"vacuity: the images are too shallow: {stats}")
+    ok, info = tlc_trace_generic(ctx, "ForestTrace", trace, timeout=3 * 3600)
+    ctx.cov["evaluations"] += stats["pages"]
+    ctx.cov["distinct_nontrivial"] += stats["images"]
+    if not ok:
+        rec = info["record"]
+        line = open(trace).read().splitlines()[info["line"] - 1]
+        img = json.loads(line)
+        why = img.get("decode_error") or "Forest!WellFormed is false"
+        what = f"the image after step {rec.get('i')} of history {rec.get('run')} (forest --seed {ctx.seed}) is not a well-formed forest: {why}"
+        payload = {"property": ctx.prop, "kind": "forest", "seed": ctx.seed, "tier": ctx.tier, "run": rec.get("run"), "i": rec.get("i"), "what": what,
+                   "signature": f"forest:{rec.get('run')}:{rec.get('i')}", "image": img if len(line) < 200000 else "(large)"}
+        raise Violation(ctx.prop, save_replay(ctx.prop, payload), what, payload["signature"])
+    ctx.cov["traces_validated_against_impl"] += 1
+    lines = open(trace).read().splitlines()
+    s0 = json.loads(lines[len(lines) // 2])
+    ctx.add_samples([{"run": s0["run"], "i": s0["i"], "npages": s0["npages"], "trees": [[t["name"], t["kind"], t["stored_len"], len(t["pages"])] for t in s0["trees"]]}])
+    ctx.assumptions += ["the decoder (/verif/decoder) was written from docs/design.md by a separate author without redb's reader or checksum code "
+                        "(its own XXH3-128); format facts the document does not give were read from the source and are listed in its README",
+                        "the images are those of the in-memory backend at the return of a durable commit(), of compact() and of a clean close, "
+                        "sampled evenly (quick: 10 per history)",
+                        "the order inside inline multimap value sets is not decoded; subtree value sets are"]
+    return dict(level="exploration", exhaustive=False,
+                rule="random histories (tables of 6 key/value type pairs, multimaps with inline and subtree value sets, savepoints, catalog "
+                     "operations, compaction, aborts, page sizes 512/1024/4096, one or several regions); after every durable commit, compaction "
+                     "and clean close the storage bytes are decoded by an independent decoder and TLC evaluates Forest!WellFormed on the decoded "
+                     "image: slot checksum; per tree (data and system catalogs, every table, every multimap subtree, allocator state and "
+                     "pending-free tables) keys strictly increasing under the key type's order, routing keys >= left subtree and < right "
+                     "subtree, child depth = parent depth + 1, all leaves at one depth, stored count = entries present, stored checksum of every "
+                     "page (as recorded by its parent / root record) = recomputed; no page referenced twice and no overlapping extents. "
+                     "evaluations = pages judged; distinct_nontrivial = images. Eight damaged copies of a real image (one per clause) must be "
+                     "rejected in every run")
+
+
 def check_C11(ctx):
     build()
     st = run_crash(ctx, tiered(ctx, 10, 100), tiered(ctx, 140, 300), extra=["--second-every", str(tiered(ctx, 31, 7))])
@@ -1194,6 +1250,7 @@ PROPS = {
     "C07": check_C07,
     "C04": check_C04,
     "C09": check_C09,
+    "C10": check_C10,
     "C17": check_C17,
 }
 
@@ -1229,7 +1286,9 @@ def main(argv):
                 still = replay_crash_case(ctx, replay)
             elif payload.get("kind") == "sched":
                 still = replay_sched(ctx, payload)
-            elif payload.get("kind", "").startswith("contract") or payload.get("kind") == "keys":
+            elif payload.get("kind", "").startswith("contract") or payload.get("kind") in ("keys", "forest"):
+                ctx.seed = payload.get("seed", ctx.seed)
+                ctx.tier = payload.get("tier", ctx.tier)
                 try:
                     PROPS[prop](ctx)
                     still = False
